@@ -182,19 +182,50 @@ CN = TRef("ChrNamer")
 OSTR = TOpt(STR).sort()
 
 
-@contract("tola.assembly.build_utils.ChrNamer.__init__", kind="init", status="TRUSTED")
+CN_PAIR = TTuple([STR, TRef("Scaffold")])
+
+
+@contract("tola.assembly.build_utils.ChrNamer.__init__", kind="init", properties=("C09", "C10"))
 class _:
+    # a namer starts with the prefix it is given, no scaffolds, no haplotypes seen and no groups
     params = {"self": CN, "chr_prefix": STR}
     defaults = {"chr_prefix": "SUPER_"}
-    modifies = staticmethod(lambda o: [("field", "ChrNamer", "chr_prefix", o.self)])
-    ensures = staticmethod(lambda o, n, res: n.self.chr_prefix == o.chr_prefix)
+    modifies = staticmethod(lambda o: [("field", "ChrNamer", f, o.self) for f in ("chr_prefix", "scaffolds", "haplotypes_seen", "groups")]
+                            + [("fresh-lists", CN_PAIR), ("alloc",)])
+    ensures = staticmethod(lambda o, n, res: [
+        ("prefix", n.self.chr_prefix == o.chr_prefix),
+        ("no-scaffolds-yet", n.self.scaffolds.len == 0),
+        ("no-groups-yet", n.self.groups.is_none),
+        ("its-own-new-list-and-dictionary", z3.And(n.self.scaffolds.z >= o.alloc, n.self.scaffolds.z < n.alloc,
+                                                    n.self.haplotypes_seen.z >= o.alloc, n.self.haplotypes_seen.z < n.alloc)),
+        ("alloc-grows", n.alloc >= o.alloc),
+    ])
 
 
-@contract("tola.assembly.build_utils.ChrNamer.add_scaffold", status="TRUSTED")
+@contract("tola.assembly.build_utils.ChrNamer.add_scaffold", properties=("C09", "C10"))
 class _:
-    # remembers the scaffold for name_chromosomes(); no effect on anything the routing contract talks about
+    # remembers (str(haplotype), scaffold) for name_chromosomes(), in call order, and marks the haplotype as seen;
+    # the frame is the point for the routing contract: nothing outside the namer's own list and dictionary changes
     params = {"self": CN, "hap": TOpt(STR), "scffld": TRef("Scaffold")}
     result = NONE
+    modifies = staticmethod(lambda o: [("list-append", CN_PAIR, o.self.scaffolds), ("dict-maps", STR, BOOL)])
+
+    @staticmethod
+    def ensures(o, n, res):
+        a, b = o.self.scaffolds, n.self.scaffolds
+        from pyvc.engine import dict_maps
+
+        _, has0, _, val0 = dict_maps(o.state, STR, BOOL)
+        _, has1, _, val1 = dict_maps(n.state, STR, BOOL)
+        sz0, sz1 = (x.state.hmap("DSZ.String.Bool", smt.Int, smt.Int) for x in (o, n))
+        ref = o.self.haplotypes_seen.z
+        return [
+            ("other-dictionaries-kept", forall(lambda r: z3.Implies(r != ref, z3.And(has1[r] == has0[r], val1[r] == val0[r], sz1[r] == sz0[r])))),
+            ("appended-last", z3.And(b.same(a), b.len == a.len + 1)),
+            ("earlier-entries-kept", forall(lambda k: z3.Implies(z3.And(0 <= k, k < a.len), b.arr[b.lo + k] == a.arr[a.lo + k]))),
+            ("the-scaffold-is-the-new-entry", b[a.len][1].z == o.scffld.z),
+            ("under-its-haplotype-as-text", b[a.len][0] == z3.If(o.hap.is_none, z3.StringVal("None"), o.hap.val)),
+        ]
 
 
 @contract("tola.assembly.build_utils.ChrNamer.add_chr_prefix", status="TRUSTED")
@@ -408,7 +439,8 @@ class _:
                                        ("default-gap-is-a-gap", z3.Implies(z3.Not(o.self.default_gap.is_none), o.self.default_gap.val.is_gap))])
     modifies = staticmethod(lambda o: [("fresh-objs", "Scaffold", ["name", "rows", "tag", "haplotype", "rank", "original_name", "original_tags"]),
                                        ("dict-maps", FKEY, TRef("Scaffold")),
-                                       ("fresh-objs", "Assembly", ["name", "scaffolds", "header", "curated"]), ("fresh-objs", "ChrNamer", ["chr_prefix"]),
+                                       ("fresh-objs", "Assembly", ["name", "scaffolds", "header", "curated"]), ("fresh-objs", "ChrNamer", ["chr_prefix", "scaffolds", "haplotypes_seen", "groups"]),
+                                       ("fresh-lists", CN_PAIR), ("dict-maps", STR, BOOL),
                                        ("fresh-lists", ROW), ("fresh-lists", TRef("Scaffold")), ("fresh-lists", STR), ("fresh-lists", TRef("Assembly")),
                                        ("map", "H.Scaffold.name"), ("dict-maps", TOpt(STR), TRef("Assembly")),
                                        *[("field", "AssemblyStats", f, o.self.assembly_stats) for f in ("cuts", "breaks", "joins")],
@@ -423,6 +455,8 @@ class _:
                 ("objects", z3.And(v.assemblies.z == e.assemblies.z, v.assemblies.z >= o.alloc, v.assemblies.z < v.alloc, v.chr_namer.z == e.chr_namer.z,
                                    v.self.z == o.self.z, v._it0_seq.z == e._it0_seq.z, v._it0_seq.lo == 0)),
                 ("counter", z3.And(0 <= v._it0, v._it0 <= v._it0_seq.len)),
+                # the namer keeps its books in a list and a dictionary of its own, made by this call
+                ("namer-books-are-new", z3.And(v.chr_namer.scaffolds.z >= o.alloc, v.chr_namer.haplotypes_seen.z >= o.alloc)),
                 # every assembly in the dict is one this call created, with its own scaffold list
                 ("assemblies-are-new", (lambda k: z3.ForAll([k], z3.Implies(v.assemblies.has(k), z3.And(
                     v.assemblies.raw(k) >= o.alloc, v.assemblies.raw(k) < v.alloc, v.assemblies.get(k).scaffolds.z >= o.alloc,
@@ -430,7 +464,9 @@ class _:
             ],
             iter_post=_routing_post,
             frame=lambda v, e: {"$fresh-only": ["LA.Int", "LHI.Int", "LLO.Int", "H.Assembly.name", "H.Assembly.scaffolds", "H.Assembly.header", "H.Assembly.curated",
-                                                "LA.String", "LHI.String", "LLO.String", "H.$class"]},
+                                                "LA.String", "LHI.String", "LLO.String", "H.$class",
+                                                "LA.Tup_String_Int", "LHI.Tup_String_Int", "LLO.Tup_String_Int",
+                                                "DH.String.Bool", "DV.String.Bool", "DSZ.String.Bool"]},
         ),
         # sorting the scaffolds of each output assembly: only lists this call created are rearranged
         1: LoopSpec(kind="for", inv=lambda v, e, o: [
